@@ -67,9 +67,29 @@ def lattice():
                         k += 1
 
 
+IDMODES = {
+    "plain": [("A", 1, None), ("A", 2, None), ("A", 3, None), ("A", 4, None)],
+    "icodes": [("A", 10, None), ("A", 10, "A"), ("A", 10, "B"), ("A", 11, None)],
+    "two-chains": [("A", 1, None), ("A", 2, None), ("B", 1, None), ("B", 2, None)],
+    "two-chains-icodes": [("A", 5, None), ("A", 5, "A"), ("B", 5, None), ("B", 5, "A")],
+    "negative": [("A", -2, None), ("A", -1, None), ("A", 0, None), ("A", 1, None)],
+}
+OCC4 = [(1.0, 1.0, 1.0, 1.0), (0.5, 1.0, 0.25, 1.0), (1.0, 0.25, 0.5, 0.75), (0.25, 0.5, 1.0, 0.5), (0.5, 0.5, 0.5, 0.5)]
+
+
+def report_cases():
+    """Four small residues in a row, each clashing with the next (and inside itself), with per-residue occupancies: the aggregation of the report
+    (per-residue and per-chain maxima, grouping by full residue identity) is exercised under every identity mode."""
+    for idmode in IDMODES:
+        for oi in range(len(OCC4)):
+            for order in ("listed", "reversed"):
+                yield dict(report=True, idmode=idmode, occ4=oi, order=order)
+
+
 def families(tier):
     q = tier == "quick"
     return [
+        ("report", lambda: report_cases(), 1),
         ("lattice", lambda: lattice(), 1),
         ("corpus", lambda: (dict(file=f, variant=v) for f in (CORPUS_Q if q else CORPUS_T) for v in ("identity", "compressed", "jitter")), 1),
     ]
@@ -297,8 +317,25 @@ def run_cli(argv):
 def atoms_to_table(atoms):
     t = []
     for k, a in enumerate(atoms):
-        t.append(enumio.atom(k + 1, a[3], a[2], a[0], a[1], "%.3f" % a[4][0], "%.3f" % a[4][1], "%.3f" % a[4][2], element=a[3][0], occ=("%.2f" % a[5]) if a[5] is not None else None))
+        t.append(enumio.atom(k + 1, a[3], a[2], a[0], a[1], "%.3f" % a[4][0], "%.3f" % a[4][1], "%.3f" % a[4][2], element=a[3][0], occ=("%.2f" % a[5]) if a[5] is not None else None,
+                             icode=a[6] if len(a) > 6 else None))
     return t
+
+
+def report_atoms(case):
+    ids = IDMODES[case["idmode"]]
+    occ = OCC4[case["occ4"]]
+    atoms = []
+    step = 2 * radii()["C"] - 0.2  # two carbons closer than the sum of their radii
+    for k, (chain, num, icode) in enumerate(ids):
+        x0 = 2 * step * k
+        # C1' - C2' inside the residue clash; C2' of residue k clashes with C1' of residue k+1; N1 off the axis clashes with nothing
+        for nm, dx, dy in (("C1'", 0.0, 0.0), ("C2'", step, 0.0), ("N1", step / 2, 6.0)):
+            atoms.append((chain, num, "GCAU"[k], nm, np.array([x0 + dx, dy, 0.0]), occ[k], icode))
+    if case["order"] == "reversed":
+        groups = [atoms[i:i + 3] for i in range(0, len(atoms), 3)]
+        atoms = [a for g in reversed(groups) for a in g]
+    return atoms
 
 
 def check_cli(atoms, out):
@@ -398,6 +435,11 @@ def run_case(case):
             atoms.append((a["chain"], a["resseq"], a["resname"], a["name"], xyz, float(a["occ"]) if a["occ"] is not None else None))
         residues = to_residues(atoms)
         nt = run_find(residues, out, case["file"] + "/" + case["variant"])
+    elif case.get("report"):
+        atoms = report_atoms(case)
+        nt = check_cli(atoms, out)
+        if nt == 0:
+            out.append(viol("harness:report-family-without-clashes", "the report family is built to clash under every flag set; none was listed"))
     else:
         atoms = make_atoms(case)
         if atoms is None:
